@@ -267,6 +267,15 @@ func TestC07(t *testing.T) {
 				}
 			}
 		}
+		// A key setup on a session that already has keys is something no caller in
+		// the repository does (setups start from the tun path of a router without
+		// keys, see C14 in DESIGN.md 10.2); what the two routers hold afterwards is
+		// only asserted for setups between routers that had no keys.
+		vKeyedBefore := func() bool {
+			s := V.St.GetSession(X.IP())
+			return s != nil && s.Encryption().IsSetUp()
+		}()
+		rekeyOfEstablished := (kindName == "hello-request" || kindName == "hello-response") && (xKeyed() || vKeyedBefore)
 		var held []*vnet.InFlight
 		switch kindName {
 		case "hello-request":
@@ -496,15 +505,17 @@ func TestC07(t *testing.T) {
 			}
 			processed := res.Escalated - len(res.RouterErrs)
 			if processed > 1 {
-				c.Fatalf("two copies of one %s ping handled by two workers at once: both were processed (held at %q, handler errors %v)", kindName, V.Gate.Point, res.RouterErrs)
+				c.Fatalf("two copies of one %s ping handled by two workers at once: both were processed (held at %q, handler errors %v)\nheld call: %s", kindName, V.Gate.Point, res.RouterErrs, V.Gate.Stack)
 			}
 			env.deliverAll()
 			sV, sX := V.St.GetSession(X.IP()), X.St.GetSession(V.IP())
-			if sV != nil && sX != nil && sV.Encryption().IsSetUp() && sX.Encryption().IsSetUp() {
+			if rekeyOfEstablished {
+				c.Class("two-copies-at-once/keys-not-compared-setup-on-a-keyed-session")
+			} else if sV != nil && sX != nil && sV.Encryption().IsSetUp() && sX.Encryption().IsSetUp() {
 				w := &c14World{c: c, vn: ms.vn, n: [2]*vnet.Node{X, V}}
 				for from := 0; from < 2; from++ {
 					if err := w.traffic(from); err != nil {
-						c.Fatalf("after two copies of one %s ping were handled at once (held at %q), both routers consider encryption established but traffic from %s does not unseal at the other: %v", kindName, V.Gate.Point, w.n[from].Name, err)
+						c.Fatalf("after two copies of one %s ping were handled at once (held at %q), both routers consider encryption established but traffic from %s does not unseal at the other: %v\nheld call: %s\nhandler errors: %v", kindName, V.Gate.Point, w.n[from].Name, err, V.Gate.Stack, res.RouterErrs)
 					}
 				}
 			}
